@@ -291,7 +291,7 @@ class Proc(object):
     pass
 
 
-def start_lockstep(box, pnames, extra_shim=None, now=(2020, 1, 1, 0, 0, 0), commands=None):
+def start_lockstep(box, pnames, extra_shim=None, now=(2020, 1, 1, 0, 0, 0), commands=None, all_ops=False):
     """commands: optional {process name: (script, argv)}; default: trash-put of the process's own source"""
     procs = {}
     for p in pnames:
@@ -300,7 +300,7 @@ def start_lockstep(box, pnames, extra_shim=None, now=(2020, 1, 1, 0, 0, 0), comm
         a_r, a_w = os.pipe()
         t_r, t_w = os.pipe()
         pr.ann_r, pr.tok_w = a_r, t_w
-        cfg = box.shim(pname=p, lockstep={'ann': a_w, 'tok': t_r, 'shared': box.shared_prefixes()})
+        cfg = box.shim(pname=p, lockstep={'ann': a_w, 'tok': t_r, 'shared': [] if all_ops else box.shared_prefixes()})
         if extra_shim:
             cfg.update(extra_shim)
         script, argv = (commands or {}).get(p, ('trash-put', None))
@@ -351,11 +351,11 @@ def advance_to_want(pr):
             pr.events.append(m)
 
 
-def run_schedule(box, pnames, choose, max_steps=400, control=None, commands=None):
+def run_schedule(box, pnames, choose, max_steps=400, control=None, commands=None, all_ops=False):
     """Run the processes in lock-step.  choose(step, runnable, current) -> process name.
     control(step, proc, want) -> None | 'K' (kill before the operation) | errno name (fault).
     Returns (steps, results): steps = [{p, op, raw, res, state}], results = {p: runner result}."""
-    procs = start_lockstep(box, pnames, commands=commands)
+    procs = start_lockstep(box, pnames, commands=commands, all_ops=all_ops)
     creators = {}
     steps = []
     try:
